@@ -1,4 +1,5 @@
 import OnetVerif.Model.C14
+import OnetVerif.Shapes
 /-! Property C14 — every client request gets the reply computed for exactly that request.
 Property theorems, negation witnesses, non-vacuity examples and the lemmas they need. -/
 namespace C14
@@ -712,5 +713,70 @@ example :
   refine ⟨⟨?_, ?_⟩, by decide⟩
   · intro t ht; simp at ht; subst ht; exact ⟨rfl, rfl⟩
   · intro t ht; simp at ht; rcases ht with rfl | rfl <;> exact ⟨rfl, rfl, rfl⟩
+
+/-! ### the code regions the model stands for
+Regenerated from /repo's source on every run (`harness/cmd/astfacts` → `OnetVerif/Shapes.lean`): the
+calls that matter for synchronisation and data flow, the lock regions and (for decision logic) the
+conditions, in source order.  A re-ordering, a dropped call or a changed condition breaks these
+obligations even when no sampled input or schedule shows a difference; the check then searches for
+a failing input. -/
+theorem c14_shape_ServiceProcessor_ProcessClientRequest :
+    Shapes.processor_ServiceProcessor_ProcessClientRequest =
+   ["server.Suite", "network.DefaultConstructors", "protobuf.DecodeWithConstructors",
+     "callInterfaceFunc", "protobuf.Encode"] := rfl
+
+theorem c14_shape_callInterfaceFunc :
+    Shapes.processor_callInterfaceFunc =
+   ["defer{", "}", "arg.Elem", "Elem().Set", "f.Call", "ret[].Interface", "ret[].Interface",
+     "ret[].Interface", "ret[].Interface", "ret[].Interface"] := rfl
+
+theorem c14_shape_ServiceProcessor_RegisterRESTHandler :
+    Shapes.processor_ServiceProcessor_RegisterRESTHandler =
+   ["handlerInputCheck", "createServiceHandler", "prepareHandlerGET", "regexp.Compile",
+     "regexp.Compile", "wrapJSONMsg", "http.Error", "URL.EscapedPath", "intRegex.MatchString",
+     "wrapJSONMsg", "http.Error", "URL.EscapedPath", "path.Split", "strconv.Atoi", "wrapJSONMsg",
+     "http.Error", "int64", "val0.Elem", "Elem().Field", "Field().SetInt", "URL.EscapedPath",
+     "sliceRegex.MatchString", "wrapJSONMsg", "http.Error", "URL.EscapedPath", "path.Split",
+     "hex.DecodeString", "err.Error", "wrapJSONMsg", "http.Error", "val0.Elem", "Elem().Field",
+     "Field().SetBytes", "wrapJSONMsg", "http.Error", "Header.Get", "wrapJSONMsg", "http.Error",
+     "ioutil.ReadAll", "err.Error", "wrapJSONMsg", "http.Error", "val0.Interface",
+     "json.Unmarshal", "err.Error", "wrapJSONMsg", "http.Error", "wrapJSONMsg", "http.Error",
+     "val0.Interface", "callInterfaceFunc", "err.Error", "wrapJSONMsg", "http.Error",
+     "wrapJSONMsg", "http.Error", "json.Marshal", "err.Error", "wrapJSONMsg", "http.Error",
+     "w.Header", "Header().Set", "w.Write", "p.getRouter", "getRouter().HandleFunc"] := rfl
+
+theorem c14_shape_wsHandler_ServeHTTP :
+    Shapes.websocket_wsHandler_ServeHTTP =
+   ["defer{", "}", "u.Upgrade", "defer:ws.Close", "ws.ReadMessage",
+     "bidirectionalStreamer.IsStreaming", "s.ProcessClientRequest", "time.Now", "Now().Add",
+     "ws.SetWriteDeadline", "ws.WriteMessage", "send:clientInputs",
+     "bidirectionalStreamer.ProcessClientStreamRequest", "go{", "defer:close:clientInputs",
+     "defer:verifC15Point", "ws.ReadMessage", "close:closing", "verifC15Point",
+     "send:clientInputs", "recv:leaving", "}", "recv:closing", "recv:outChan",
+     "websocket.FormatCloseMessage", "time.Now", "Now().Add", "ws.WriteControl", "verifC15Point",
+     "close:leaving", "time.Now", "Now().Add", "ws.SetWriteDeadline", "verifC15Point",
+     "close:leaving", "ws.WriteMessage", "verifC15Point", "close:leaving", "err.Error",
+     "websocket.FormatCloseMessage", "time.Now", "Now().Add", "ws.WriteControl"] := rfl
+
+theorem c14_shape_client_Client_Send :
+    Shapes.websocket_client_Client_Send =
+   ["c.newConnIfNotExist", "defer:connLock.Unlock", "defer{", "c.Lock", "conn.Close",
+     "c.closeSingleUseConn", "c.Unlock", "}", "conn.WriteMessage", "time.Now", "Now().Add",
+     "conn.SetReadDeadline", "conn.ReadMessage"] := rfl
+
+theorem c14_shape_client_Client_newConnIfNotExist :
+    Shapes.websocket_client_Client_newConnIfNotExist =
+   ["c.Lock", "c.Unlock", "connLock.Lock", "c.Lock", "c.Unlock", "url.Parse", "connLock.Unlock",
+     "u.String", "getWSHostPort", "connLock.Unlock", "d.Dial", "time.Sleep", "connLock.Unlock",
+     "c.Lock", "c.Unlock"] := rfl
+
+theorem c14_shape_client_Client_closeConn :
+    Shapes.websocket_client_Client_closeConn =
+   ["websocket.FormatCloseMessage", "conn.WriteMessage", "conn.Close"] := rfl
+
+theorem c14_shape_client_Client_closeSingleUseConn :
+    Shapes.websocket_client_Client_closeSingleUseConn =
+   ["c.closeConn"] := rfl
+
 
 end C14
